@@ -15,8 +15,10 @@ handle -1 is ``Interface``, handle -2 is ``implementedBy(object)``.
 
 Output per case: {"steps": [step..]} or {"exc": "...", "steps": [...so far]}; a step is
   {"node": id of the op's specification, "ops": [["new", id, kind, [base ids]] |
-   ["set", id, [base ids]] | ["drop", id]], "snap": [[id, [bases], [sro], [iro], [isOrExtends],
-   [extends], [extends non strict], [providedBy] or null] ...]}
+   ["set", id, [base ids]] | ["drop", id]], "rows": [[id, [bases], [sro], [iro], [isOrExtends],
+   [extends], [extends non strict], [providedBy] or null] ...], "gone": [ids], "incons": bool}
+where every live specification is queried after every operation but only the rows that differ
+from the previous step are transmitted.
 Specifications are numbered in discovery (= creation) order, sets are ascending id lists."""
 import gc
 import weakref
@@ -43,6 +45,7 @@ class World:
         self.classes = {}    # handle -> class
         self.objs = {}       # handle -> object whose providedBy is the node
         self.pending = []    # ops of the current step
+        self.prev = {}       # id -> row reported last
         self.ensure(Interface)
         self.ensure(implementedBy(object))
 
@@ -191,7 +194,18 @@ class World:
                 RO.ro(self.nodes[node], strict=True)
             except RO.InconsistentResolutionOrderError:
                 incons = True
-        return {"node": node, "ops": self.pending, "snap": self.snap(), "incons": incons}
+        return self.report(node, incons)
+
+    def report(self, node, incons):
+        """only the rows that changed since the previous step are sent (the harness rebuilds the
+        full snapshots); "gone" lists the ids that disappeared"""
+        rows = self.snap()
+        cur = {r[0]: r for r in rows}
+        out = {"node": node, "ops": self.pending, "incons": incons,
+               "rows": [r for r in rows if self.prev.get(r[0]) != r],
+               "gone": [i for i in self.prev if i not in cur]}
+        self.prev = cur
+        return out
 
 
 def run_case(k, case):
@@ -199,7 +213,7 @@ def run_case(k, case):
     w = None
     try:
         w = World(k)
-        steps.append({"node": None, "ops": w.pending, "snap": w.snap()})
+        steps.append(w.report(None, False))
         for op in case["ops"]:
             steps.append(w.do(op))
         return {"steps": steps}
